@@ -186,3 +186,156 @@ func CollisionFamily(eco string, r *rand.Rand, k int) []string {
 	}
 	return out
 }
+
+// ---------------------------------------------------------------------------------------------------------------
+// Hash-extreme family: ordinary versions x.y.z whose 32-bit hash is MinInt32 (abs() stays negative, h % n is
+// negative), 0 ("unset"), MaxInt32 or 0xFFFFFFFF. One text in 2^32 has such a hash, so random inputs never do; a
+// meet-in-the-middle search over 10^6 prefixes "x.y." and 10^5 suffixes "z" finds ~20 per function and target.
+
+// HashExtreme is a plain version whose hash under Hash equals Target.
+type HashExtreme struct {
+	Hash   string `json:"hash"`
+	Target uint32 `json:"target"`
+	Text   string `json:"text"`
+}
+
+var extremeTargets = []uint32{0x80000000, 0, 0xFFFFFFFF, 0x7FFFFFFF}
+
+// invertible one-byte steps: forward and backward
+type stepFn struct {
+	name     string
+	init     uint32
+	fwd, bwd func(h uint32, c byte) uint32
+}
+
+func modInv32(a uint32) uint32 { // a odd
+	x := a
+	for i := 0; i < 5; i++ {
+		x *= 2 - a*x
+	}
+	return x
+}
+
+func stepFns() []stepFn {
+	poly := func(name string, init, m uint32) stepFn {
+		inv := modInv32(m)
+		return stepFn{name, init, func(h uint32, c byte) uint32 { return h*m + uint32(c) }, func(h uint32, c byte) uint32 { return (h - uint32(c)) * inv }}
+	}
+	const p = 16777619
+	pinv := modInv32(p)
+	return []stepFn{
+		poly("java31", 0, 31), poly("djb2", 5381, 33), poly("sdbm", 0, 65599),
+		{"fnv32a", 2166136261, func(h uint32, c byte) uint32 { return (h ^ uint32(c)) * p }, func(h uint32, c byte) uint32 { return (h * pinv) ^ uint32(c) }},
+		{"fnv32", 2166136261, func(h uint32, c byte) uint32 { return (h * p) ^ uint32(c) }, func(h uint32, c byte) uint32 { return (h ^ uint32(c)) * pinv }},
+	}
+}
+
+var (
+	extremeCache = map[string][]HashExtreme{}
+)
+
+// HashExtremes returns the cached extreme-hash versions for texts prefix+x.y.z.
+func HashExtremes(prefix string) []HashExtreme {
+	collideMu.Lock()
+	defer collideMu.Unlock()
+	if p, ok := extremeCache[prefix]; ok {
+		return p
+	}
+	var file string
+	if d := os.Getenv("VERIF_CACHE"); d != "" {
+		file = filepath.Join(d, "hashextreme.v1."+strconv.Itoa(len(prefix))+prefix+".json")
+		if b, err := os.ReadFile(file); err == nil {
+			var p []HashExtreme
+			if json.Unmarshal(b, &p) == nil && len(p) > 0 {
+				extremeCache[prefix] = p
+				return p
+			}
+		}
+	}
+	fns := stepFns()
+	res := make([][]HashExtreme, len(fns))
+	var wg sync.WaitGroup
+	for fi, f := range fns {
+		wg.Add(1)
+		go func(fi int, f stepFn) {
+			defer wg.Done()
+			h0 := f.init
+			for i := 0; i < len(prefix); i++ {
+				h0 = f.fwd(h0, prefix[i])
+			}
+			mid := make(map[uint32]int32, 1<<20)
+			for x := 0; x < 1000; x++ {
+				hx := h0
+				for _, c := range []byte(strconv.Itoa(x) + ".") {
+					hx = f.fwd(hx, c)
+				}
+				for y := 0; y < 1000; y++ {
+					hy := hx
+					for _, c := range []byte(strconv.Itoa(y) + ".") {
+						hy = f.fwd(hy, c)
+					}
+					mid[hy] = int32(x*1000 + y)
+				}
+			}
+			var out []HashExtreme
+			for _, t := range extremeTargets {
+				n := 0
+				for z := 0; z < 100000 && n < 8; z++ {
+					zs := strconv.Itoa(z)
+					h := t
+					for i := len(zs) - 1; i >= 0; i-- {
+						h = f.bwd(h, zs[i])
+					}
+					if xy, ok := mid[h]; ok {
+						out = append(out, HashExtreme{f.name, t, prefix + strconv.Itoa(int(xy)/1000) + "." + strconv.Itoa(int(xy)%1000) + "." + zs})
+						n++
+					}
+				}
+			}
+			res[fi] = out
+		}(fi, f)
+	}
+	wg.Wait()
+	var all []HashExtreme
+	for _, r := range res {
+		all = append(all, r...)
+	}
+	// self-check: only texts whose forward hash really equals the target are kept
+	var ok []HashExtreme
+	for _, x := range all {
+		for _, f := range fns {
+			if f.name == x.Hash {
+				h := f.init
+				for i := 0; i < len(x.Text); i++ {
+					h = f.fwd(h, x.Text[i])
+				}
+				if h == x.Target {
+					ok = append(ok, x)
+				}
+			}
+		}
+	}
+	extremeCache[prefix] = ok
+	if file != "" {
+		if b, err := json.Marshal(ok); err == nil {
+			tmp := file + "." + strconv.Itoa(os.Getpid()) + ".tmp"
+			if os.WriteFile(tmp, b, 0o644) == nil {
+				os.Rename(tmp, file)
+			}
+		}
+	}
+	return ok
+}
+
+// ExtremeFamily returns k extreme-hash versions (both the bare and the v-prefixed search space).
+func ExtremeFamily(r *rand.Rand, k int) []string {
+	var out []string
+	for ; k > 0; k-- {
+		ps := HashExtremes([]string{"", "v"}[r.IntN(2)])
+		if len(ps) == 0 {
+			continue
+		}
+		out = append(out, ps[r.IntN(len(ps))].Text)
+	}
+	return out
+}
